@@ -84,8 +84,13 @@ class Arr:
 
 
 class Mask:
-    def __init__(self, desc):
+    def __init__(self, desc, meta=None):
         self.desc = desc
+        self.meta = meta        # structured form, e.g. ("between", lo, hi, Num the mask was computed on)
+
+    @property
+    def tag(self):
+        return self.meta if self.meta is not None else self.desc
 
     def __repr__(self):
         return f"<Mask {self.desc}>"
@@ -507,7 +512,7 @@ class Interp:
         if isinstance(v, Num):
             return v.canon()
         if isinstance(v, Arr):
-            return f"{v.num.canon()}@{'/'.join(v.sel)}" if v.sel else v.num.canon()
+            return f"{v.num.canon()}@{'/'.join(x if isinstance(x, str) else x[0] for x in v.sel)}" if v.sel else v.num.canon()
         if isinstance(v, (str, bool)) or v is None:
             return repr(v)
         if isinstance(v, (list, tuple)):
